@@ -3,6 +3,7 @@ package idem
 import (
 	"fmt"
 	"sort"
+	"time"
 
 	"verifharness/internal/drive"
 	"verifharness/internal/ev"
@@ -137,9 +138,13 @@ type tally struct {
 
 func (w *witnesses) one(c *ev.Case, sc *scenario, plan faultPlan, o judgeOpts, ch sched.Chooser, t *tally) *sched.Outcome {
 	s := sched.New()
+	// The middleware and MemoryLock have no timers of their own: nothing can release a worker
+	// that is blocked with nobody parked, so one virtual second of idling decides a deadlock.
+	s.DeadlockCap = time.Second
 	r := newRun(sc, plan, s)
 	out := r.play(ch)
 	fs := r.judge(o)
+	defer r.drain()
 	w.e.Eval(len(sc.Reqs))
 	t.schedules++
 	for _, ev := range out.Released {
@@ -157,6 +162,30 @@ func (w *witnesses) one(c *ev.Case, sc *scenario, plan faultPlan, o judgeOpts, c
 		w.report(c, r, fs)
 	}
 	return out
+}
+
+// drain runs after the verdict: workers left blocked behind an injected Unlock failure (the
+// key stays locked) are released by unlocking the real lock and run to completion, so that no
+// goroutine outlives its schedule. Nothing that happens here is judged.
+func (r *run) drain() {
+	for i := 0; r.out != nil && r.out.Deadlock && i <= len(r.reqs); i++ {
+		var keys []string
+		for k := range r.probe.holder {
+			keys = append(keys, k)
+		}
+		if len(keys) == 0 {
+			return
+		}
+		sort.Strings(keys)
+		for _, k := range keys {
+			delete(r.probe.holder, k)
+			_ = r.probe.inner.Unlock(k)
+		}
+		out := r.s.Run(func(int, []sched.Parked) int { return 0 })
+		if !out.Deadlock {
+			return
+		}
+	}
 }
 
 func (t *tally) flush(e *ev.Env, family string) {
